@@ -38,6 +38,8 @@ UNPROVEN = ['adc leaves the input frame untouched: sampled (frame frozen read-on
 ASSUMPTIONS = ['saturation_capacity 0 is treated like None by the code (`if saturation_capacity:`) and by the model',
                'integer electron frames: the powers x**order must be representable in the frame dtype (NumPy wraps silently: '
                'adc(int16 [[58]], gain=[0.5, 0, 1.25]) returns 0, not 97628); float overflow/rounding likewise not modelled',
+               'floor is discontinuous: when the exact polynomial value is within 1e-9 (relative) of an integer a one-DN difference is '
+               'accepted (NumPy float64 x**3 is not correctly rounded: 77.0**3 = 456532.99999999994)',
                'adc_monotone: coefficients >= 0 and inputs >= 0 (a polynomial with an even power is not increasing on negatives); '
                'for scalar/per-pixel gain >= 0 monotone on all inputs']
 
@@ -120,7 +122,7 @@ def _adc_ref(c):
     cap = Fr(c['cap']['num'][0], c['cap']['den']) if c['cap'] is not None else None
     if cap == 0: cap = None
     g = c['gain']; gv = _fr(g)
-    dn = []
+    dn = []; vals = []
     for p in range(R * C):
         xv = x[p]
         if cap is not None and xv > cap: xv = cap
@@ -130,9 +132,21 @@ def _adc_ref(c):
         else: co = [gv[k * R * C + p] for k in range(g['n'])]
         n = len(co)
         v = sum(co[k] * xv ** (n - k) for k in range(n))
-        dn.append(max(0, math.floor(v)))
+        dn.append(max(0, math.floor(v))); vals.append(v)
     warns = bool(c['warn'] and cap is not None and any(v > cap for v in x))
-    return dn, warns
+    return dn, warns, vals
+
+def _dn_mismatch(c, got):
+    """index of the first pixel whose DN differs from the exact reference, or None. float64 `x**3` in NumPy is not correctly
+    rounded (77.0**3 = 456532.99999999994), so when the exact polynomial value is an integer (or within 1e-9 relative of
+    one) the floor may legitimately fall on either side: that one-DN ambiguity at the discontinuity is not a disagreement."""
+    dn, _, vals = _adc_ref(c)
+    for p, (g, d, v) in enumerate(zip(got, dn, vals)):
+        if g == d: continue
+        near = abs(v - round(v)) <= 1e-9 * (1 + abs(v))
+        if near and abs(g - d) == 1 and g >= 0: continue
+        return p
+    return None
 
 def gen_adc(rng):
     R, C = pick_shape(rng, 5)
@@ -158,8 +172,8 @@ def gen_adc(rng):
     c = {'kind': 'adc', 'shape': [R, C], 'img': img, 'intframe': bool(intframe),
          'frame_dtype': fdt,
          'gain': gain, 'cap': cap, 'warn': bool(rng.integers(0, 2)), 'dtype': None}
-    dn, _ = _adc_ref(c)
-    mx = max(dn)
+    dn, _, _ = _adc_ref(c)
+    mx = max(dn) + 1
     ok = [d for d in DTYPES if d is None or d.startswith('float') or mx <= np.iinfo(d).max]
     if mx >= 2 ** 24 and 'float32' in ok: ok.remove('float32')
     c['dtype'] = ok[int(rng.integers(0, len(ok)))]
@@ -199,7 +213,7 @@ def nontrivial(c):
     if k == 'collect': return c['nw'] > 1 or c['qe']['kind'] != 'scalar'
     if k == 'bayer': return len(set(c['pattern'].upper())) > 1 or c['os'] > 1
     if k == 'badpattern': return True
-    dn, _ = _adc_ref(c)
+    dn, _, _ = _adc_ref(c)
     x = _fr(c['img'])
     cap = c['cap'] and Fr(c['cap']['num'][0], c['cap']['den'])
     return any(v < 0 for v in x) or bool(cap and any(v > cap for v in x)) or c['gain']['n'] > 1
@@ -219,7 +233,7 @@ def tags(c):
         if cap and any(v > cap for v in x): t.append('adc:over-capacity')
         if c['cap'] is None: t.append('adc:no-cap')
         if c['cap'] is not None and c['cap']['num'][0] == 0: t.append('adc:cap-zero')
-        dn, w = _adc_ref(c)
+        dn, w, _ = _adc_ref(c)
         if w: t.append('adc:warns')
         g = _fr(c['gain'])
         if any(v < 0 for v in g): t.append('adc:negative-gain')
@@ -353,9 +367,9 @@ def compare(c, io, mo):
         return None
     if io['shape'] != c['shape']: return f"shape {io['shape']}"
     got = [Fr(a, b) for a, b in io['dn']]
-    if got != [Fr(x) for x in m['dn']]:
-        p = [i for i, (a, b) in enumerate(zip(got, m['dn'])) if a != b][0]
-        return f"DN differ at pixel {p}: implementation {float(got[p])}, model {m['dn'][p]}"
+    if [Fr(x) for x in m['dn']] != [Fr(x) for x in _adc_ref(c)[0]]: return 'model DN differ from the exact reference'
+    p = _dn_mismatch(c, got)
+    if p is not None: return f"DN differ at pixel {p}: implementation {float(got[p])}, model {m['dn'][p]}"
     if io['warns'] != m['warns']: return f"warning: implementation {io['warns']}, model {m['warns']}"
     return None
 
@@ -404,12 +418,12 @@ def oracle(c, io):
     # adc
     if 'exc' in io: return f"adc raised {io['exc']}: {io.get('msg')}"
     if not io['untouched']: return 'adc modified its input frame or gain'
-    dn, warns = _adc_ref(c)
+    dn, warns, _ = _adc_ref(c)
     got = [Fr(a, b) for a, b in io['dn']]
     if io['shape'] != [R, C]: return f"DN frame shape {io['shape']}"
     if any(g < 0 for g in got): return 'negative DN'
-    if got != [Fr(v) for v in dn]:
-        p = [i for i, (a, b) in enumerate(zip(got, dn)) if a != b][0]
+    p = _dn_mismatch(c, got)
+    if p is not None:
         return f"DN at pixel {p} is {float(got[p])}, floor of the gain polynomial at the clipped count is {dn[p]}"
     if io['warns'] != warns: return f"saturation warning {'emitted' if io['warns'] else 'missing'} (expected {warns})"
     if io['other_warnings']: return f"unexpected warning {io['other_warnings'][0]}"
@@ -419,7 +433,7 @@ def oracle(c, io):
     g = c['gain']
     if g['kind'] in ('scalar', 'poly') and all(v >= 0 for v in _fr(g)):
         x = _fr(c['img'])
-        pts = sorted((xv, d_) for xv, d_ in zip(x, dn) if xv >= 0 or g['n'] == 1)
+        pts = sorted((xv, int(d_)) for xv, d_ in zip(x, got) if xv >= 0 or g['n'] == 1)
         for (x1, d1), (x2, d2) in zip(pts, pts[1:]):
             if d1 > d2: return f'DN not monotone: {float(x1)} -> {d1}, {float(x2)} -> {d2}'
     return None
